@@ -1075,6 +1075,12 @@ func (p *partition) handleReplicationResponse(msg *nats.Msg) int {
 		return 0
 	}
 	offsets, err := p.log.AppendMessageSet(data)
+	if err == commitlog.ErrInvalidMessageSet {
+		// The data received is truncated or malformed. Nothing has been
+		// written to the log, so drop the response.
+		p.srv.logger.Warnf("Invalid replication response for partition %s: %v", p, err)
+		return 0
+	}
 	if err != nil {
 		panic(fmt.Errorf("Failed to replicate data to log %s: %v", p, err))
 	}
